@@ -29,6 +29,18 @@ theorem c09_legal_transitions (cfg : Cfg) (s : State) (op : Op) :
   rintro rfl
   simp [step, reset]
 
+/-- History form: over any history without `reset`, from any state, the whole stream of announced phase changes
+    chains from the initial phase to the final phase — the callback stream is a complete account of the phases the
+    lifecycle went through (and each element of it is legal by `c09_legal_transitions`). -/
+theorem c09_phase_history_is_announced (cfg : Cfg) (s : State) (ops : List Op) (hr : ∀ op ∈ ops, op ≠ .reset) :
+    follow s.phase (historyEvs cfg s ops) = some (run cfg s ops).phase := by
+  induction ops generalizing s with
+  | nil => simp [historyEvs, follow, run]
+  | cons op ops ih =>
+    simp only [historyEvs, run, follow_append]
+    rw [(legal_step cfg s op).2 (hr op (by simp))]
+    exact ih _ (fun o ho => hr o (by simp [ho]))
+
 /-- The transitions do happen: `start` takes a NASCENT lifecycle to ACTIVE, `trigger_apoptosis` takes every
     non-terminated lifecycle to APOPTOTIC, `terminate` takes every lifecycle to TERMINATED. -/
 theorem c09_end_states_reached (cfg : Cfg) (s : State) :
@@ -212,6 +224,19 @@ theorem c09_lifecycle_calls_return (cfg : Cfg) (s : State) (op : Op) :
 theorem c09_rlock_never_blocks (T : Table) (fuel held m : Nat) (ch : List Bool) :
     execM T .rlock fuel held m ch ≠ .blocked :=
   execM_rlock_ne_blocked T fuel held m ch
+
+/-- General lemma of the lock discipline: a shape that never re-acquires the lock while holding it (no region
+    calls, directly or transitively, a method that takes the lock) returns under EVERY lock kind — in particular
+    under a non-reentrant `threading.Lock` — whichever branches are taken.  (The current `tick` is not of this
+    form: it calls `start` inside its region, which is why the lock has to be re-entrant.) -/
+theorem c09_flat_shape_returns (T : Table) (k : LockKind) (fuel m : Nat) (h : flatM T fuel m = true)
+    (ch : List Bool) : ∃ ch', execM T k fuel 0 m ch = .ret ch' :=
+  flat_returns T k fuel m h ch
+
+/-- `record_error` is flat in the current source, `tick` is not -/
+example : (∃ m, genTable.indexOf "record_error" = some m ∧ flatM genTable genTable.length m = true) ∧
+    (∃ m, genTable.indexOf "tick" = some m ∧ flatM genTable genTable.length m = false) :=
+  ⟨⟨7, by decide, by decide⟩, ⟨6, by decide, by decide⟩⟩
 
 /-- The shape the pinned tree had — `threading.Lock()` and `tick` calling `start` inside its own region — is
     stuck: the first tick of a never-started lifecycle waits forever for the lock it holds; the lock-event path
